@@ -148,6 +148,8 @@ def table():
     rows = ["| seeded change | property | site | needs to manifest | caught by (quick checks) |", "|---|---|---|---|---|"]
     d = os.path.join(VERIF, "seeded")
     for name in sorted(os.listdir(d)):
+        if not os.path.isdir(os.path.join(d, name)):
+            continue
         m = json.load(open(os.path.join(d, name, "meta.json")))
         ran = m.get("checks_run", {})
         caught = ", ".join("%s (%s)" % (pid, (r.get("detail") or ["?"])[0].replace("clause:", "").strip()[:40] if r.get("detail") else pid)
@@ -156,7 +158,14 @@ def table():
         needs = str(m.get("needs_to_manifest", "")).replace("|", "/").replace("\n", " ")[:220]
         rows.append("| %s | %s | %s | %s | %s%s |" % (name, m.get("property", "?"), str(m.get("site", "?")).replace("|", "/")[:60], needs,
                                                      caught or "none", (" — not caught by: " + missed) if missed else ""))
-    print("\n".join(rows))
+    text = "\n".join(rows)
+    if "--write" in sys.argv:
+        with open(os.path.join(d, "TABLE.md"), "w") as f:
+            f.write("# Seeded changes and the checks that catch them\n\nGenerated by `python3 tools/seeded.py table --write` from "
+                    "`seeded/*/meta.json` (each entry: patch.diff, demo.py, meta.json with the outcome of the quick checks run "
+                    "against a scratch worktree with the patch applied).\n\n" + text + "\n")
+    else:
+        print(text)
     return 0
 
 
